@@ -5,6 +5,8 @@ package executor
 import (
 	"sort"
 
+	"github.com/cbergoon/merkletree"
+	"github.com/meshplus/bitxhub-kit/types"
 	"github.com/meshplus/bitxhub-model/pb"
 )
 
@@ -25,4 +27,13 @@ func (exec *BlockExecutor) VerifServiceCacheKeys() []string {
 	})
 	sort.Strings(ks)
 	return ks
+}
+
+// VerifCalcMerkleRoot runs the executor's calcMerkleRoot over the given hashes.
+func VerifCalcMerkleRoot(hs []*types.Hash) (*types.Hash, error) {
+	cs := make([]merkletree.Content, 0, len(hs))
+	for _, h := range hs {
+		cs = append(cs, h)
+	}
+	return calcMerkleRoot(cs)
 }
